@@ -154,6 +154,8 @@ fn main() {
     let (mut rer_regexes, mut rer_words, mut rer_unparsable, mut rer_lean_unsupported) = (0u64, 0u64, 0u64, 0u64);
     let n_re = o.n / 4 + 30;
     let fixed_re = [
+        // probes for the known regex-syntax printer defect (a repetition of a repetition is printed without a group)
+        "(?:b+){0,1}b+", "(?:a{2,3}){0,1}", "(?:a+)?b", "(?:a*)?b",
         "(?i)ab", "[^a]", "a{2,3}", "(a|b)*c", "\\p{Greek}+", "(?x) a b # c", "[a-c&&b-d]", "\\d+\\.\\d*", "é|[é-ê]x", "a*?",
         "(?s).", ".", "\\x{e9}", "[[:alpha:]]+", "(?U)a+", "a|", "(?:)", "\\u{1F600}", "[\\s--\\n]", "(?i:k)", "\\bx\\b",
     ];
@@ -209,12 +211,26 @@ fn main() {
         if a.iter().any(|&x| x) && a.iter().any(|&x| !x) && re != &s2 {
             rer_nontrivial.insert(re.clone());
         }
+        // criterion computed from the HIR: a Repetition whose sub-expression is itself a Repetition
+        // (regex-syntax prints the two suffixes next to each other: `(?:b+)?` comes out as the lazy `b+?`)
+        let sexp = hooks::hir_sexp(&hir);
+        let rep_of_rep = sexp.match_indices("(rep ").any(|(i, _)| {
+            let rest = &sexp[i + 5..];
+            let mut it = rest.splitn(4, ' ');
+            let (_, _, _) = (it.next(), it.next(), it.next());
+            it.next().map_or(false, |sub| sub.starts_with("(rep "))
+        });
         for (wi, w) in words.iter().enumerate() {
             if a[wi] != b[wi] {
+                let kind = if rep_of_rep { "rerender:repetition-of-repetition-printed-without-group" } else { "rerender-changes-language" };
+                let rt = match (&builder, w.is_empty()) {
+                    (Ok(bd), false) => format!("{}", runtime_full_match(bd, w)),
+                    _ => "null".to_string(),
+                };
                 writeln!(
                     findings,
-                    "{{\"kind\":\"rerender-changes-language\",\"regex\":{},\"rerendered\":{},\"string\":{},\"original_matches\":{},\"rerendered_matches\":{}}}",
-                    json_str(re), json_str(&s2), json_str(w), a[wi], b[wi]
+                    "{{\"kind\":\"{kind}\",\"regex\":{},\"rerendered\":{},\"pattern_in_generated_source\":{},\"string\":{},\"original_matches\":{},\"rerendered_matches\":{},\"runtime_matcher_on_rerendered\":{rt},\"hir\":{}}}",
+                    json_str(re), json_str(&s2), json_str(&format!("{s2:?}")), json_str(w), a[wi], b[wi], json_str(&sexp)
                 )
                 .unwrap();
                 n_findings += 1;
